@@ -244,6 +244,8 @@ impl ActorCell {
         if let Some(r_name) = &name {
             crate::registry::register(r_name.clone(), cell.clone())?;
         }
+        #[cfg(feature = "verif")]
+        crate::verif::point(crate::verif::pt::CELL_NEW_AFTER_NAME, crate::verif::id_u64(&cell.get_id()), 0);
 
         #[cfg(feature = "cluster")]
         if let Err(err) = crate::registry::pid_registry::register_pid(cell.get_id(), cell.clone()) {
@@ -332,6 +334,8 @@ impl ActorCell {
     /// Returns the status observed immediately before the update.
     pub(crate) fn set_status(&self, status: ActorStatus) -> ActorStatus {
         let previous_status = self.inner.set_status(status);
+        #[cfg(feature = "verif")]
+        crate::verif::point(crate::verif::pt::STATUS_AFTER_PUBLISH, crate::verif::id_u64(&self.get_id()), ((previous_status as u64) << 8) | status as u64);
 
         // The actor is shut down — only run cleanup once, on the first transition
         // to Stopping. Publish the new status before cleanup so concurrent PG
@@ -348,11 +352,15 @@ impl ActorCell {
             if let Some(name) = self.get_name() {
                 crate::registry::unregister(name);
             }
+            #[cfg(feature = "verif")]
+            crate::verif::point(crate::verif::pt::STATUS_AFTER_REGISTRY_CLEANUP, crate::verif::id_u64(&self.get_id()), 0);
             // Leave all + stop monitoring pg groups (if any)
             crate::pg::demonitor_all(self.get_id());
             crate::pg::leave_all(self.get_id());
         }
 
+        #[cfg(feature = "verif")]
+        crate::verif::point(crate::verif::pt::STATUS_BEFORE_NOTIFY, crate::verif::id_u64(&self.get_id()), status as u64);
         // Fix for #254. We should only notify the stop listener AFTER post_stop
         // has executed, which is when the state gets set to `Stopped`.
         if status == ActorStatus::Stopped && previous_status < ActorStatus::Stopped {
@@ -367,6 +375,8 @@ impl ActorCell {
     pub(crate) fn terminate(&self) {
         let mut pending = vec![self.clone()];
         while let Some(actor) = pending.pop() {
+            #[cfg(feature = "verif")]
+            crate::verif::point(crate::verif::pt::TERMINATE_VISIT, crate::verif::id_u64(&actor.get_id()), actor.get_status() as u64);
             // We don't need to notify of exit if we're already stopping or stopped.
             if actor.get_status() <= ActorStatus::Upgrading {
                 actor.kill();
@@ -694,5 +704,98 @@ impl ActorCell {
     #[cfg(test)]
     pub(crate) fn get_num_parents(&self) -> usize {
         self.inner.tree.get_num_parents()
+    }
+}
+
+// ================== Verification hooks (feature `verif`) ================== //
+
+/// One item read from a detached actor's message port
+#[cfg(feature = "verif")]
+#[derive(Debug)]
+pub enum VerifItem {
+    /// The drain marker
+    Drain,
+    /// A user message
+    Message(crate::message::BoxedMessage),
+}
+
+/// The receiving halves of a detached [ActorCell]: there is no actor task, the verification
+/// harness reads the ports directly.
+#[cfg(feature = "verif")]
+pub struct VerifPorts(ActorPortSet);
+
+#[cfg(feature = "verif")]
+impl std::fmt::Debug for VerifPorts {
+    fn fmt(&self, f: &mut std::fmt::Formatter<'_>) -> std::fmt::Result {
+        f.write_str("VerifPorts")
+    }
+}
+
+#[cfg(feature = "verif")]
+impl VerifPorts {
+    /// Pop the next item of the message port, if any
+    pub fn try_pop(&mut self) -> Option<VerifItem> {
+        match self.0.message_rx.try_recv() {
+            Ok(MuxedMessage::Drain) => Some(VerifItem::Drain),
+            Ok(MuxedMessage::Message(m)) => Some(VerifItem::Message(m)),
+            Err(_) => None,
+        }
+    }
+    /// Pop the next supervision event, if any
+    pub fn try_pop_supervision(&mut self) -> Option<SupervisionEvent> {
+        self.0.supervisor_rx.try_recv().ok()
+    }
+    /// Was a stop message delivered
+    pub fn try_pop_stop(&mut self) -> Option<StopMessage> {
+        self.0.stop_rx.try_recv().ok()
+    }
+    /// Was a signal delivered
+    pub fn try_pop_signal(&mut self) -> Option<Signal> {
+        self.0.signal_rx.try_recv().ok()
+    }
+}
+
+#[cfg(feature = "verif")]
+impl ActorCell {
+    /// Build a cell with no actor task behind it. With `remote_id` the cell carries that
+    /// (remote) id and is not registered anywhere; otherwise it is a normal local cell.
+    pub fn verif_detached<TActor: Actor>(
+        name: Option<ActorName>,
+        remote_id: Option<ActorId>,
+    ) -> Result<(Self, VerifPorts), SpawnErr> {
+        match remote_id {
+            #[cfg(feature = "cluster")]
+            Some(id) => Self::new_remote::<TActor>(name, id).map(|(c, p)| (c, VerifPorts(p))),
+            #[cfg(not(feature = "cluster"))]
+            Some(_) => Err(SpawnErr::ActorAlreadyStarted),
+            None => Self::new::<TActor>(name).map(|(c, p)| (c, VerifPorts(p))),
+        }
+    }
+    /// Forward to the crate-private `set_status`
+    pub fn verif_set_status(&self, status: ActorStatus) -> ActorStatus {
+        self.set_status(status)
+    }
+    /// Forward to the crate-private `terminate`
+    pub fn verif_terminate(&self) {
+        self.terminate()
+    }
+    /// Has the one-shot signal (kill) port of this actor been used
+    pub fn verif_signal_sent(&self) -> bool {
+        self.inner.signal.lock().unwrap().is_none()
+    }
+    /// Has the one-shot stop port of this actor been used
+    pub fn verif_stop_sent(&self) -> bool {
+        self.inner.stop.lock().unwrap().is_none()
+    }
+    /// The raw message-admission word
+    pub fn verif_admission_word(&self) -> usize {
+        self.inner
+            .message_admission
+            .load(std::sync::atomic::Ordering::SeqCst)
+    }
+    /// Atomic snapshot of the tree relations of `cells`:
+    /// per cell (children ids, `None` once closed; supervisor id)
+    pub fn verif_tree_snapshot(cells: &[ActorCell]) -> Vec<(Option<Vec<ActorId>>, Option<ActorId>)> {
+        super::supervision::verif_snapshot(cells)
     }
 }
